@@ -96,7 +96,8 @@ EXPECT_PROBES = ("opened", "half_open_seen", "probe_success_closed", "probe_fail
                  "preempted_while_holding_a_lock", "observer_raised", "request_in_flight_over_others",
                  "request_spans_clock_move", "last_failure_pinned_after_clock_move", "request_after_inconclusive_probe",
                  "earlier_last_failure_candidates_pruned", "lock_boundary_schedule",
-                 "unrenderable_agent_exception", "late_outcome_recorded_while_open")
+                 "unrenderable_agent_exception", "late_outcome_recorded_while_open",
+                 "reset_while_requests_overlap", "zero_recovery_timeout")
 
 EXEC_PERMITS = ("EXECUTE", "PERMIT")
 class BadStr(Exception):
@@ -129,14 +130,17 @@ def classify(logic, ez, ay):
         if ez == "FAILURE" and ay == "PERMIT":
             return "fail"
         return "neutral"
+    # mixed verdicts (executor FAILURE beside assessor BLOCK) are decided only where the gate logic's own public
+    # description gives one side precedence: ASSESSOR_PRIORITY = "assessor decides unless executor fails" (a failure),
+    # EXECUTOR_PRIORITY = "executor decides unless blocked" (the assessor's veto: an intentional block)
     if logic == "ASSESSOR_PRIORITY":
         if ez == "FAILURE":
-            return "fail" if ay == "PERMIT" else "neutral"
+            return "fail" if ay in ("PERMIT", "BLOCK") else "neutral"
         return "block" if ay == "BLOCK" else "neutral"
     if logic == "EXECUTOR_PRIORITY":
         if ez == "FAILURE" and ay == "PERMIT":
             return "fail"      # the executor failed and nobody blocked: a failure whatever action string the gate gives it
-        return "block" if (ay == "BLOCK" and ez != "FAILURE") else "neutral"
+        return "block" if ay == "BLOCK" else "neutral"
     if logic == "OR":
         return "block" if (ez == "BLOCK" and ay == "BLOCK") else "neutral"
     return "neutral"
@@ -158,6 +162,7 @@ def _pair(rng, c, profile):
 
 
 # pct estimates are scaled to the size of the overlapping phase in _gen_threads (est = steps per request x requests)
+TIMEOUTS = [1.0, 1.0, 1.0, 30.0, 30.0, 30.0, 60.0, 60.0, 60.0, 0, 0.0]      # 0 / 0.0: "probe on the very next request"
 CALLBACKS = [(6, "none"), (2, "record"), (1.2, "raise"), (0.8, "raise_block"), (0.8, "raise_permit")]
 STRATEGIES = [(1, {"kind": "serial"}), (2, {"kind": "uniform"}), (2, {"kind": "sticky", "p": 0.7}),
               (3, {"kind": "sticky", "p": 0.9}), (2, {"kind": "sticky", "p": 0.97}), (4, {"kind": "pct", "d": 1}),
@@ -195,6 +200,32 @@ def _few_preemptions(rng, plan, share=0.5, span=80):
         sw.append([n + rng.randrange(1, span), a if nt == 2 or rng.random() < 0.6 else rng.choice([t for t in range(nt) if t not in (a, b)])])
     plan["config"]["strategy"] = {"kind": "replay", "preemptions": len(sw) - (1 if a != 0 else 0)}
     plan["switches"] = sw
+
+
+def _gen_reset_race(rng, cfg, profile):
+    """reset_circuit_breaker() in one task while other tasks' requests fail: the breaker is at (or one below) its
+    threshold, so a reset that is not one atomic step shows as OPEN with fewer than `threshold` failures since it."""
+    thr = cfg["threshold"]
+    pid = [0]
+
+    def req(c):
+        pid[0] += 1
+        return ["req", pid[0] - 1] + _pair(rng, c, profile)
+
+    pre = [req("failure") for _ in range(thr if rng.random() < 0.6 else max(0, thr - 1))]
+    other = [req("failure")] + ([req(rng.choice(["failure", "success"]))] if rng.random() < 0.25 else [])
+    tasks = [[["reset"]], other]
+    if rng.random() < 0.2:
+        tasks.append([req(rng.choice(["failure", "block"]))])
+    rng.shuffle(tasks)
+    post = [req(rng.choice(["success", "failure"]))]
+    if rng.random() < 0.5:
+        post += [["clock", "rel", rng.choice([-0.001, 0.0, 1.0])], req(rng.choice(["success", "failure"]))]
+    if cfg["strategy"]["kind"] == "pct":
+        cfg["strategy"]["est"] = STEPS_PER_REQUEST
+    plan = {"family": "threads", "config": cfg, "pre": pre, "tasks": tasks, "post": post}
+    _few_preemptions(rng, plan, share=0.9, span=10)       # reset is a handful of decisions long
+    return plan
 
 
 def _gen_trip_in_flight(rng, cfg, profile):
@@ -235,15 +266,17 @@ def _gen_trip_in_flight(rng, cfg, profile):
 
 def _gen_threads(rng, tier):
     thr = rng.choice([1, 2, 2, 2, 3, 3, 4])
-    timeout = rng.choice([1.0, 30.0, 60.0])
+    timeout = rng.choice(TIMEOUTS)
     cfg = {"threshold": thr, "timeout": timeout, "logic": weighted(rng, LOGICS),
            "breaker": rng.random() < 0.93, "cache": rng.random() < 0.3, "ttl": 300.0,
            "callbacks": weighted(rng, CALLBACKS), "strategy": dict(weighted(rng, STRATEGIES))}
     profile = weighted(rng, [(3, "exc"), (3, "fail"), (4, "mixed")])
     scenario = weighted(rng, [(4.5, "open_elapsed"), (2.0, "closed"), (1.0, "open_young"), (1.2, "random"),
-                              (3.0, "trip_in_flight")])
+                              (3.0, "trip_in_flight"), (1.6, "reset_race")])
     if scenario == "trip_in_flight":
         return _gen_trip_in_flight(rng, cfg, profile)
+    if scenario == "reset_race":
+        return _gen_reset_race(rng, cfg, profile)
     pid = [0]
 
     def req(c):
@@ -328,7 +361,7 @@ def gen(rng, tier, i):
     if i % THREADS_EVERY == 0:
         return _gen_threads(rng, tier)
     thr = rng.choice([1, 2, 2, 3, 3, 4])
-    timeout = rng.choice([1.0, 30.0, 60.0])
+    timeout = rng.choice(TIMEOUTS)
     cfg = {"threshold": thr, "timeout": timeout, "logic": weighted(rng, LOGICS),
            "breaker": rng.random() < 0.93, "cache": rng.random() < 0.5, "ttl": rng.choice([300.0, 300.0, 45.0]),
            "callbacks": weighted(rng, CALLBACKS)}
@@ -553,6 +586,8 @@ class World:
         self.loop.executor, self.loop.assessor = Fake("Z-exec", "executor", self), Fake("Y-risk", "assessor", self)
         if not self.enabled:
             k.probe("breaker_disabled")
+        elif self.timeout_us == 0:
+            k.probe("zero_recovery_timeout")
         self.f_hi = 0          # possible failures since construction / last close / reset
         self.window = []       # kinds of those possible failures
         self.streak = []       # kinds of the current run of consecutive definite failures
@@ -1010,10 +1045,13 @@ def _run_threads(plan, k):
                     continue
                 if op[0] == "reset":
                     me.op = "reset"
+                    w.tick += 1
+                    r_inv = w.tick
                     out = call(w.loop.reset_circuit_breaker)
                     me.op = None
                     w.tick += 1
-                    resets.append(w.tick)
+                    resets.append((r_inv, w.tick))
+                    k.probe("reset_while_requests_overlap")
                     k.ev("reset", out.brief())
                     if out.kind != "ok":
                         raise HarnessError(f"reset_circuit_breaker ended {out.kind} inside a scheduled task")
@@ -1059,6 +1097,8 @@ def _run_threads(plan, k):
         k.violation("returns", "no_return_within_step_budget", "threads")
         return
     end_state, end_count, _ = w.stats()
+    w.tick += 1
+    end_tick = w.tick
     k.ev("quiescent", [end_state, end_count])
     if any(s[1] != "CLOSED" for s in samples) or end_state != "CLOSED":
         w.left_closed = True
@@ -1098,9 +1138,13 @@ def _run_threads(plan, k):
             k.probe("closed_zero_sample_during_overlap")
         evidence = [(t, t, "stats") for t, st, fc in samples if st != "CLOSED"]
         evidence += [(r["inv"], r["ret"], "reply") for r in recs if r["action"] == "CIRCUIT_OPEN"]
+        if end_state != "CLOSED":
+            evidence.append((end_tick, end_tick, "stats at quiescence"))
         pre_fail = w.f_hi if (q_state, q_count) != ("CLOSED", 0) else 0      # possible failures before the phase
         for lo, e, what in sorted(evidence):
-            z = max(t for t in zero if t < lo)
+            # a reset that had returned before the evidence was atomic at some instant after its invocation: the total
+            # restarts there, and every failure counted later belongs to a request that returned after that invocation
+            z = max([t for t in zero if t < lo] + [ri for ri, rr in resets if rr < lo])
             n = sum(1 for r in recs if r["could_fail"] and r["ret"] > z and r["inv"] < e)
             if z == 0:
                 n += pre_fail
